@@ -43,7 +43,7 @@ GRID8 = [0.5, 1.0, 1.5, 2.0, 2.5, 3.5, 4.0, 5.5]
 def gen_cases(tier):
     out = []
     for k in (1, 2, 3):
-        for bs in itertools.combinations(GRID8, k):
+        for bs in itertools.combinations_with_replacement(GRID8, k):      # equal consecutive boundaries = shifts of length zero
             for vals in itertools.product((0, 1, 2), repeat=k):
                 for off in (0.0, 0.5, 1.25):
                     out.append({"b": list(bs), "v": list(vals), "offset": off})
